@@ -291,7 +291,7 @@ var diffKinds = map[string][]string{
 	"scalar":    {"Set", "Set", "Get", "Get", "Delete", "Exists", "SetNX", "SetNX", "CompareAndSwap", "CompareAndSwap", "CompareAndSwap", "SetExpiration", "GetExpiration"},
 	"list":      {"SetList", "GetList", "GetList", "AppendToList", "AppendToList", "AppendToList", "RemoveFromList", "RemoveFromList", "Delete", "Exists"},
 	"hash":      {"SetHash", "SetHash", "SetHash", "SetHash", "GetHash", "GetHash", "GetHash", "GetAllHash", "GetAllHash", "DeleteHash", "Delete", "Exists", "SetExpiration", "SetExpiration", "GetExpiration"},
-	"counter":   {"Incr", "Incr", "IncrBy", "Get", "Delete", "Exists"},
+	"counter":   {"Incr", "Incr", "Incr", "IncrBy", "Get", "Delete", "Exists", "SetExpiration", "SetExpiration", "GetExpiration", "GetExpiration"},
 }
 
 var diffFields = []string{"f1", "f2", "f3", "f4", "f5"}
@@ -553,4 +553,54 @@ func TestDifferentialRedis(t *testing.T) {
 		}
 		finishDiff(t, c, runDiff(c.Ops))
 	})
+}
+
+// TestLongLists: a few lists around the sizes at which a paged reader turns a page
+// (256, 512, ...), built with SetList and with AppendToList, read on both backends.
+func TestLongLists(t *testing.T) {
+	if _, _, err := redisBackend(); err != nil {
+		t.Fatalf("inconclusive: miniredis-backed Redis storage unavailable: %v", err)
+	}
+	sizes := []int{257, 513, 1000, 256, 255, 512, 258, 769}
+	if vkit.Thorough() {
+		sizes = append(sizes, 1024, 1025, 2049, 4097)
+	}
+	member := func(i int) *Val {
+		if i%97 == 13 {
+			return sv("dup") // repeated member: RemoveFromList must take all of them
+		}
+		return sv(fmt.Sprintf("m%04d&<%d>", i, i))
+	}
+	for idx, n := range sizes {
+		if !vkit.Mine(idx) {
+			continue
+		}
+		for _, how := range []string{"SetList", "AppendToList"} {
+			c := Case{Part: "diff"}
+			if how == "SetList" {
+				op := Op{Kind: "SetList", Key: "l1", TTL: ttlZero}
+				for i := 0; i < n; i++ {
+					op.Vals = append(op.Vals, *member(i))
+				}
+				c.Ops = append(c.Ops, op)
+			} else {
+				for i := 0; i < n; i++ {
+					c.Ops = append(c.Ops, Op{Kind: "AppendToList", Key: "l1", Val: member(i)})
+				}
+			}
+			c.Ops = append(c.Ops, Op{Kind: "GetList", Key: "l1"},
+				Op{Kind: "RemoveFromList", Key: "l1", Val: sv("dup")}, Op{Kind: "GetList", Key: "l1"},
+				Op{Kind: "RemoveFromList", Key: "l1", Val: member(n - 1)}, Op{Kind: "GetList", Key: "l1"},
+				Op{Kind: "AppendToList", Key: "l1", Val: sv("tail")}, Op{Kind: "GetList", Key: "l1"})
+			out := runDiff(c.Ops)
+			if out.key != "" {
+				out.key = strings.Replace(out.key, "C13/redis-container/GetList/", fmt.Sprintf("C13/redis-container/GetList/long-list(%s)/", how), 1)
+				vkit.Violation(t, out.key, out.detail[:min(len(out.detail), 900)], c)
+				vkit.Case("known:"+out.key, false, "")
+				continue
+			}
+			vkit.Case("diff:long-list", true, fmt.Sprintf("long-%s-%d", how, n))
+			vkit.Class(fmt.Sprintf("feat:diff:long-list-%d-members", n))
+		}
+	}
 }
